@@ -60,7 +60,8 @@ var generators = []generator{
 	}},
 	{"lock", []string{"R07a", "R07b"}, func(c *Ctx, _ map[string]bool) { lockRules(c) }},
 	{"guards", []string{"R14a", "R14b", "R14c", "R14h"}, func(c *Ctx, _ map[string]bool) { guardFacts(c, requestPkgs, true, true, true) }},
-	{"extra", []string{"R01g", "R02e", "R04e", "R06d", "R07g", "R08e", "R11c"}, extraRules},
+	{"extra", []string{"R01g", "R02e", "R04e", "R06d", "R06f", "R07g", "R08e", "R11c"}, extraRules},
+	{"extra2", []string{"R01i", "R04f", "R06g", "R09e", "R11e", "R14i", "R20f"}, extraRules2},
 	{"closers-all", []string{"R14d"}, func(c *Ctx, _ map[string]bool) {
 		runCloserRules(c, "R14d", allCloserEntries(), 55, "closers are closed, returned or handed to an owner on every path: every file, response body, backend stream, pipe end and reader obtained in a request path of package server, cache/disk, casblob and the proxy back ends is, on every exit of the function that obtained it, closed (possibly deferred), returned to the caller or handed to a callee that owns it (policies of the owning callees are themselves checked); an interface value that may be nil is not called")
 	}},
@@ -143,7 +144,7 @@ func prop(id string, rules []string, explanation, notDecided string, extraTrust 
 const structural = "Static analysis of /repo's current type-checked source (go/packages + go/types, per-function go/cfg explored path-sensitively with bounded inlining of the module's own callees). Decided are structural necessary conditions of the property - breaking any of them changes the behaviour the property describes - not the behaviour itself. "
 
 func init() {
-	prop("C01", []string{"R01a", "R01b", "R01c", "R01d", "R01e", "R01f", "R01g", "R01h", "R16a"},
+	prop("C01", []string{"R01a", "R01b", "R01c", "R01d", "R01e", "R01f", "R01g", "R01h", "R01i", "R16a"},
 		structural+"Decided: (R01f) at every ingress that reaches Cache.Put the hash and the size come from one declaration or from the stored bytes themselves; (R01c/R01d/R01e) inside the disk cache every CAS byte stream goes through a writer that hashes exactly the bytes it stores, compares SHA-256 and length with the declared ones and probes for trailing bytes before its only success return; (R01a/R01b) the index insertion is dominated by that success and nothing else inserts; (R01g) the reader handed to Cache.Put is the whole request payload (body, decoder over it, pipe fed by it, or the complete byte slice), never a truncating wrapper, so trailing or extra bytes reach the verifying writer; (R01h) every OK / nil / 200 acknowledgement in package server is dominated by Put having returned nil for that blob.",
 		"Not decided: that SHA-256 / zstd libraries compute what they claim; that a well-formed upload within limits is accepted (liveness); that an acknowledged blob stays readable until evicted (C05/C07 clauses); the content of decompressed data (decoder correctness).")
 	prop("C02", []string{"R02a", "R02b", "R02c", "R02d", "R02e"},
@@ -152,19 +153,19 @@ func init() {
 	prop("C03", []string{"R03a", "R03b", "R03c", "R03d", "R03e", "R03f"},
 		structural+"Decided: (R03b) the three counters and the index are written only by Add / removeElement / Reserve / Unreserve; (R03c) each of those changes the counters by exactly the 4 KiB-rounded size of the entry that enters or leaves, or the reserved amount, on every exit (linear-form analysis), failing exits change nothing; (R03d) the eviction loops run exactly until currentSize + delta <= maxSize for the delta added next; (R03a) every Reserve in the disk cache is paired with exactly one Unreserve of the same amount on every path including deferred clean-up; (R03e) removeElement re-validates stale list handles; (R03f) /status reports those counters.",
 		"Not decided: the arithmetic invariant as a statement about runtime values across interleavings (that is induction over histories; the rules give its inductive step per mutator and the pairing per request path); overflow of int64 sums.")
-	prop("C04", []string{"R04a", "R04b", "R04c", "R04d", "R04e"},
+	prop("C04", []string{"R04a", "R04b", "R04c", "R04d", "R04e", "R04f"},
 		structural+"Decided: (R04a) every temp file created in Put / get is indexed or removed on every exit; (R04b) every removal from the index queues the removed entry's file for deletion, an overwrite queues the old value; (R04c) the background remover deletes exactly the queued entry's path; (R04d) every os.Remove / Open in cache/disk works on a path derived from FileLocation / getElementPath or a created temp file; (R04e) the name a file is created under, the name computed for lookups and the start-up loader's grammar agree for every (kind, legacy) combination.",
 		"Not decided: file-system behaviour (rename/remove atomicity), that the directory is otherwise untouched, timing of the background remover (quiescence is a runtime notion).")
 	prop("C05", []string{"R05a", "R05b", "R05d", "R05e", "R03d", "R03c"},
 		structural+"Decided: (R05a) every index hit moves the element to the front before it is returned and Add pushes to the front, the map is touched by SizedLRU methods only; (R05b) victims come from the back of the list; (R03d) the eviction loop guard is the exact negation of the fit condition for the incoming delta (no eviction without pressure, minimal eviction); (R05d) an item that cannot fit is rejected before any eviction; (R05e) Put reserves the logical size and commit adds size = logical size, sizeOnDisk = bytes written; (R03c) the accounted size every eviction decision is taken from changes by exactly the entry that enters or leaves, so no phantom pressure builds up.",
 		"Not decided: the LRU order as a property of histories (the rules fix the per-operation list discipline from which it follows by induction); 'present immediately afterwards' under concurrency.")
-	prop("C06", []string{"R06a", "R06b", "R06c", "R06d", "R06e"},
+	prop("C06", []string{"R06a", "R06b", "R06c", "R06d", "R06e", "R06f", "R06g", "R10c"},
 		structural+"Decided: (R06a) every Digest-typed field reachable from ActionResult through OutputFile, OutputDirectory -> Tree -> Directory -> FileNode (enumerated from the generated protobuf types) flows into the presence check or is fetched; (R06b) the hit return is dominated by that check returning nil and a missing blob maps to a miss; (R06c) a nil result maps to NotFound / 404 with no 200 body before; (R06d) in the backend worker every answer that does not confirm the blob (absent, or another size) raises the fail-fast miss signal; (R06e) with dependency checking on, AC content reaches clients only through GetValidatedActionResult.",
 		"Not decided: 'at that moment' (atomicity of the check with respect to concurrent eviction), the backend's truthfulness.")
-	prop("C07", []string{"R07a", "R07b", "R07e", "R07f", "R07g", "R03e", "R01a", "R12e"},
+	prop("C07", []string{"R07a", "R07b", "R07e", "R07f", "R07g", "R03e", "R01a", "R12e", "R04f"},
 		structural+"Decided: (R07a) lockset: every access to the LRU index is made with c.mu held, Lock/Unlock balanced on every path, no double lock; (R07b) no blocking operation (file system, backend, semaphore, channel send, re-locking callee) while c.mu is held - the static deadlock argument; (R07e/R07f) closures run by several goroutines write shared variables only through atomics / disjoint slice elements that are awaited; (R03e) stale handles are re-validated; (R01a/R12e) an entry becomes visible in the index only after its file is complete, verified, synced and closed (whole values); (R07g) cache files are never modified once created - new content goes to a new O_EXCL file, old files are only unlinked - which is what keeps a streaming read unaffected by overwrite and eviction.",
 		"Not decided: linearizability of histories, data-race freedom in general (only the enumerated sharing patterns), that a streaming read survives eviction (relies on POSIX unlink semantics).")
-	prop("C08", []string{"R08a", "R08b", "R08d", "R08e", "R01a", "R04a"},
+	prop("C08", []string{"R08a", "R08b", "R08d", "R08e", "R01a", "R04a", "R06g"},
 		structural+"Decided: (R08a) WriteAndClose writes the chunk table only after all chunks, the trailing probe and the hash comparison, then f.Sync() and f.Close() are error-checked before success; the header written first cannot validate without the table; (R08b) raw files are synced and closed with checked errors before success; (R08d) readHeader rejects every torn or inconsistent table (magic, count, frame size, chunk size, monotone offsets, last offset == file size) and both readers start with it; (R01a) the entry is indexed only after writeAndCloseFile returned nil; (R04a) a file that was not verified is removed on every exit - files are created under their final names, so a leftover would be indexed by the next start; (R08e) every class of entry that is served (compressed CAS, legacy CAS, AC/RAW) passed a completeness check of its file - on the pinned tree only compressed CAS does, the other two classes are recorded known findings (D31: a torn AC/RAW/.v1 file left by a kill is indexed and served).",
 		"Not decided: crash behaviour of the file system itself (ordering of rename vs. data blocks beyond fsync of the file; the directory is not fsynced), start-up success on arbitrary torn directories (C09).")
 	prop("C09", []string{"R09b", "R09c", "R09e", "R09f", "R04e", "R15a", "R05d"},
@@ -182,7 +183,7 @@ func init() {
 	prop("C13", []string{"R13a", "R13b", "R13c", "R13d", "R13e", "R13f", "R13g"},
 		structural+"Decided: (R13a/b/c) the inventory of registered gRPC methods is read from the service descriptors, each is classified mutating iff its handler reaches Cache.Put, and the unauthenticated-read allow-list contains only registered, non-mutating methods; (R13d) in each auth interceptor every path to the handler is the health check, an allowed read, or a passed credential check; (R13e/R13f) for every valuation of the configuration the gRPC server and every HTTP route (/, /status, /metrics) is wrapped by the interceptor / handler that valuation requires; (R13g) the unauthenticated wrapper forwards only GET and HEAD and every Put in the HTTP handler is behind the PUT method and the write-certificate check.",
 		"Not decided: the cryptographic verification itself (crypto/tls, go-http-auth, LDAP library), TLS handshake configuration beyond ClientAuth, password file parsing.")
-	prop("C14", []string{"R14a", "R14b", "R14c", "R14d", "R14e", "R14f", "R14g", "R14h", "R03a", "R04a", "R16c"},
+	prop("C14", []string{"R14a", "R14b", "R14c", "R14d", "R14e", "R14f", "R14g", "R14h", "R14i", "R03a", "R04a", "R16c"},
 		structural+"Decided: (R14a) every field selection through a nilable protobuf message pointer in request code is dominated by a non-nil fact; (R14b) every division by a non-constant is dominated by a non-zero fact; (R14c) every non-induction index is dominated by a length bound; (R14g) no log.Fatal / os.Exit / panic is reachable from a handler, interceptor or cache method; (R14d) every closer obtained on a request path is closed, returned or handed over on every exit; (R14e) every pipe's read end is terminated so writers cannot block for ever; (R14f) goroutines started by a request can always finish (sends never exceed channel capacity); (R14h) every digest put into the list handed to the presence check is non-nil (the check dereferences its elements while holding the cache lock); (R03a/R04a) reservations and temp files are released on every exit.",
 		"Not decided: panics inside third-party libraries, unbounded memory from huge messages, termination of loops over attacker-controlled data, goroutines of the gRPC/HTTP servers themselves.")
 	prop("C15", []string{"R15a", "R15b", "R15c", "R15d", "R15e"},
@@ -200,7 +201,7 @@ func init() {
 	prop("C19", []string{"R19a", "R19b", "R19c", "R19d", "R19e", "R19f", "R19g"},
 		structural+"Decided: (R19a/b/c/d) every command-line flag is read with the accessor of its own type into the field whose YAML tag is the flag's name, defaults agree, every flag is read and every YAML field has a flag; (R19e) both front ends return a configuration only through the one validator; (R19g) both normalise the listener addresses alike; (R19f) for each class of invalid set-up named by the property the validator has an error exit reached exactly by that defect (class-sliced exploration of validateConfig).",
 		"Not decided: environment-variable handling inside urfave/cli, YAML parser behaviour, semantic equivalence of nested proxy configurations beyond field wiring.")
-	prop("C20", []string{"R20a", "R20b", "R20c", "R20d", "R12g", "R02d"},
+	prop("C20", []string{"R20a", "R20b", "R20c", "R20d", "R20f", "R12g", "R02d"},
 		structural+"Decided: (R20a) the header writer emits the published v2 layout (magic, frame size, logical size, compression byte, chunk size, count, offsets; little-endian; table at byte 29); (R20b) the reader consumes the same (type, width) sequence; (R20c) each chunk is one independent zstd frame and the offset table records the file offset before each; (R02d) readers honour whatever chunk size the header states; (R20d) file names follow the published layout per key space; (R12g) backend object and resource names are the published injective templates.",
 		"Not decided: that zstd frames produced by the libraries are standard-conformant, readability by an independent implementation (needs executing one).")
 }
